@@ -524,7 +524,17 @@ def repr_values(condition: Callable[..., bool], lambda_inspection: Optional[Cond
     reprs = None  # type: Optional[MutableMapping[str, Any]]
 
     if lambda_inspection is not None:
-        variable_lookup = collect_variable_lookup(condition=condition, resolved_kwargs=selected_kwargs)
+        # Only the parameters of the condition are local to the condition. All the other names in
+        # the condition are resolved by Python from the closure, the globals and the built-ins (in that order),
+        # even if the decorated function has an argument with the same name.
+        condition_parameters = inspect.signature(condition).parameters
+        condition_kwargs = {
+            name: value
+            for name, value in selected_kwargs.items()
+            if name in condition_parameters
+        }
+
+        variable_lookup = collect_variable_lookup(condition=condition, resolved_kwargs=condition_kwargs)
 
         recompute_visitor = icontract._recompute.Visitor(variable_lookup=variable_lookup)
 
